@@ -188,7 +188,7 @@ class Row(object):
                  self_obj=None, exc="ValueError", exact=True, before=None,
                  extra_points=(), inject=None, max_depth=4, cite="",
                  note="", domain=None, no_inline=(), also_ok_exc=(),
-                 reject_by_return=None, models=None):
+                 reject_by_return=None, models=None, cases=None):
         self.rid = rid
         self.prop = prop
         self.mod = mod
@@ -210,6 +210,7 @@ class Row(object):
         self.also_ok_exc = tuple(also_ok_exc)
         self.reject_by_return = reject_by_return   # value meaning "refused"
         self.models = models or {}
+        self.cases = cases            # explicit list of (label, value)
 
 
 # vary helpers ----------------------------------------------------------------
@@ -261,14 +262,24 @@ def run_row(check, repo, row):
     """Evaluate one row; records exactly one obligation."""
     mod = repo.module(row.mod)
     fn = repo.func(mod, row.func)
-    pts = sample_points(row, fn)
+    labels = {}
+    if row.cases is not None:
+        pts = []
+        for lab, val in row.cases:
+            pts.append(val)
+            labels[id(val)] = lab
+    else:
+        pts = sample_points(row, fn)
+    hits = {}
     wrong = []
     accepted = []
     rejected = []
     nrun = 0
+    skipped = 0
     for v in pts:
         seed = row.vary(v)
         if seed is None:
+            skipped += 1
             continue
         inject = dict(row.inject)
         inject.update(seed.get("inject", {}))
@@ -291,10 +302,10 @@ def run_row(check, repo, row):
         res = it.run(mod, fn, args, self_obj=me, state=st)
         nrun += 1
         for k in inject:
-            if not it.inject_hits.get(k):
-                raise AnalysisError(
-                    "anchor vanished: row %s: expression/local %r no longer "
-                    "occurs in %s.%s" % (row.rid, k, mod.name, row.func))
+            hits[k] = hits.get(k, 0) + it.inject_hits.get(k, 0)
+        if id(v) in labels:
+            v = labels[id(v)]
+            inside = None
         is_rej = res.rejected()
         classes = res.raise_classes()
         used = False
@@ -309,7 +320,10 @@ def run_row(check, repo, row):
                             for o in rets):
                 is_rej = True
                 classes = []
-        inside = row.accept.contains(v)
+        if row.cases is not None:
+            inside = row.accept.contains(pts[nrun - 1 + skipped])
+        else:
+            inside = row.accept.contains(v)
         (rejected if is_rej else accepted).append(v)
         if not inside and not is_rej:
             wrong.append((v, "accepted but outside the specified domain"))
@@ -325,13 +339,18 @@ def run_row(check, repo, row):
                              " (%s)" % ",".join(classes)))
     if nrun == 0:
         raise AnalysisError("row %s: no sample point applicable" % row.rid)
+    for k, n in hits.items():
+        if not n:
+            raise AnalysisError(
+                "anchor vanished: row %s: expression/local %r no longer "
+                "occurs in %s.%s" % (row.rid, k, mod.name, row.func))
     check.count("guard_region_representatives", nrun)
     ok = not wrong
     check.ob("G", "G|" + row.rid, ok, mod.path, fn.lineno,
              extracted="accepted representatives %s; rejected %s%s" % (
                  _fmtl(accepted), _fmtl(rejected),
                  "" if ok else "; WRONG: " + "; ".join(
-                     "%s %s" % (_fmt(v), why) for v, why in wrong[:4])),
+                     "%s %s" % (v if isinstance(v, str) else _fmt(v), why) for v, why in wrong[:4])),
              expected="%s accepts %s %r, everything else raises %s" % (
                  row.func, "exactly" if row.exact else "at most",
                  row.accept, row.exc),
